@@ -5,6 +5,38 @@ ROOT = os.path.dirname(os.path.dirname(os.path.abspath(__file__)))
 ALL = ["C%02d" % i for i in range(1, 21)]
 
 CHECKS = {
+ "C15": dict(
+    category="model_checking",
+    text="Reader.tla models lha_reader_* over lha_basic_reader_* (one action per public call; directory stack, deferred "
+         "symlinks, decoder, basic reader position/remaining/eof, ghost reference counts). TLC checks for all archives of "
+         "<= 3 (thorough: 4) members over 12 entry shapes, all three directory policies and all call sequences obeying the "
+         "caller discipline: normal headers come in archive order at member boundaries whatever was read, skipped or checked; "
+         "extracted directories are re-presented exactly where the policy says (never under PLAIN); deferred symlinks come "
+         "last, longest first; end of archive is sticky. The implementation is bound by trace validation: generated "
+         "multi-member archives (all header levels, stored and real compressed members of 10 methods, directories, safe and "
+         "dangerous symlinks, bad CRC/length, unsupported methods) are driven with random disciplined call sequences over "
+         "five stream kinds; each call's result, returned bytes and projected internal state (LHASA_VERIF accessors) must "
+         "equal the model's.",
+    design_ref="DESIGN.md section 5, C15",
+    note="Trusted: TLC/SANY/CommunityModules, clang+ASan, the generator's ground truth (archive layout and member contents). "
+         "Concurrency (two readers on two threads) is observed, not explored.",
+    technique="TLA+ spec (Reader) model-checked with TLC; trace validation of lha_reader_* executions with state projections"),
+ "C20": dict(
+    category="fault_enumeration",
+    text="For each generated history (archive incl. nested directories and dangerous symlinks, policy, disciplined call "
+         "sequence cut at a prefix so that the archive is abandoned at arbitrary points, stream kind) the fault-free run's "
+         "allocations are counted by link-time interposition, then the run is repeated once per k with the k-th allocation "
+         "failing (all k). Every execution's trace (calls, results, state projections, Alloc/Dealloc/Fopen/Fclose events) is "
+         "validated against Reader.tla: the failing call must return a failure value/end of archive, later calls must behave as "
+         "the model does from that state, every free must release a live block, header reference counts must equal the "
+         "model's owners, and nothing may be live after lha_reader_free + lha_input_stream_free. TLC additionally checks the "
+         "ownership invariants in the bounded model with Free enabled in every state and one injected failure anywhere, and "
+         "that the unrepaired release logic (FIXED = FALSE) violates them (vacuity guard).",
+    design_ref="DESIGN.md section 5, C20",
+    note="Trusted: the interposition shim (libc-internal allocations are not seen), TLC, clang+ASan. Found and fixed: three "
+         "defects (known_findings.json).",
+    technique="fault enumeration over all allocation points x call histories, decided by TLC trace validation against the "
+              "Reader TLA+ spec with ghost ownership; bounded model checking of the ownership invariants"),
  "C14": dict(
     category="model_checking",
     text="DecoderApi.tla models lha_decoder_read line by line (clamp, copy/refill loop, failure latch, CRC, position, "
